@@ -118,3 +118,11 @@ class MyBytes(bytes):
 
 class MyByteArray(bytearray):
     pass
+
+
+class RaisesReduce:
+    def __reduce__(self):
+        raise RuntimeError("cannot be reduced")
+
+    def __reduce_ex__(self, protocol):
+        raise RuntimeError("cannot be reduced")
